@@ -193,6 +193,8 @@ fn p_c01(_tape: &Tape) -> Profile {
     p.mismatch = 0;
     p.verify_each_commit = false;
     p.key_universe = 64;
+    // rebuilds and recoveries over pending-free records that span several entries need bulk writes
+    p.bulk_one_in = 4;
     p
 }
 
@@ -229,6 +231,8 @@ fn p_c11(_tape: &Tape) -> Profile {
     p.w_abort = 8;
     p.w_delete_table = 3;
     p.nondurable = 70;
+    // rebuilds and recoveries over pending-free records that span several entries need bulk writes
+    p.bulk_one_in = 4;
     p
 }
 
@@ -262,7 +266,7 @@ pub fn c11() -> CrashCheck {
         ccfg: cc_c11,
         rule: "hist tapes with frequent quick-repair commits, clean reopen, check_integrity and aborts are executed on a recording backend and stopped in every way: clean close + open inside the history (contents and persistent savepoints must be unchanged, check_integrity must return Ok(true) whenever it is callable), and a crash at sampled/enumerated storage operations (same crash model as C01); after every crash recovery: contents equal one commit point in the window, check_integrity() == Ok(true) twice with unchanged contents, then a continuation workload writes to every table and creates a new one, commits, everything is re-read and check_integrity() must again be Ok(true) (a page wrongly considered free would be handed out and corrupt a table; a stale allocator snapshot shows up as Ok(false)). Non-trivial: crash state with >=1 pending write kept and >=1 dropped or torn outside the idle phase; distinct by image hash.",
         assumptions: &["allocation state is observed through check_integrity() (which rebuilds it from the roots and compares) and through safe reuse under the continuation workload; exact page accounting is C06", "Ok(false) after a caught-panic leak is documented and not generated"],
-        quick: (160, 80),
+        quick: (320, 80),
         thorough: (4000, 120),
         probes: &[probe_c11_abort_after_growth],
     }
